@@ -299,4 +299,89 @@ theorem readOffset_writeOffset (o : Offset) (h : Offset.MIN_S ≤ o.seconds ∧ 
   have : ¬ (o.seconds < -64800 ∨ o.seconds > 64800) := by omega
   simp only [this, if_false]
 
+/-! ## strings -/
+
+theorem takeExact_append (s rest : Bytes) : takeExact s.length (s ++ rest) = some (s, rest) := by
+  induction s with
+  | nil => cases rest <;> simp [takeExact]
+  | cons b s ih => simp [takeExact, ih]
+
+theorem readString_inline (s : Str) (hv : validUtf8 s = true) (hl : (s.length : Int) ≤ INT_MAX) (rest : Bytes) :
+    ∃ bs, writeStringInline s = .ok bs ∧ readString none (bs ++ rest) = .ok (s, rest) := by
+  have hc := writeCount_ok (s.length : Int) ⟨by omega, hl⟩
+  refine ⟨writeVarint s.length ++ s, ?_, ?_⟩
+  · unfold writeStringInline
+    rw [hc]
+    simp [bind, Except.bind]
+  · unfold readString
+    rw [List.append_assoc]
+    have := readCount_varint (s.length : Int) ⟨by omega, hl⟩ (s ++ rest)
+    simp only [Int.toNat_natCast] at this
+    rw [this]
+    simp only [bind, Except.bind, Int.toNat_natCast, takeExact_append, hv, if_true]
+
+theorem indexOf_get (pool : List Str) (s : Str) (i : Nat) (h : indexOf? pool s = some i) : pool[i]? = some s := by
+  unfold indexOf? at h
+  simp only at h
+  split at h
+  · rename_i hlt
+    cases h
+    have := List.findIdx_getElem (w := hlt)
+    simp only [decide_eq_true_eq] at this
+    rw [List.getElem?_eq_getElem hlt, this]
+  · cases h
+
+theorem writeCount_eq_ok (n : Int) (bs : Bytes) (h : writeCount n = .ok bs) : 0 ≤ n ∧ n ≤ INT_MAX ∧ bs = writeVarint n.toNat := by
+  by_cases hr : 0 ≤ n ∧ n ≤ INT_MAX
+  · rw [writeCount_ok n hr] at h
+    cases h
+    exact ⟨hr.1, hr.2, rfl⟩
+  · unfold writeCount checkRange at h
+    have : n < 0 ∨ n > INT_MAX := by omega
+    simp only [this, if_true] at h
+    cases h
+
+theorem readString_pooled (pool : List Str) (s : Str) (final : List Str) (bs : Bytes) (pool' : List Str)
+    (hw : writeStringPooled pool s = .ok (bs, pool')) (hp : pool' <+: final) (rest : Bytes) :
+    readString (some final) (bs ++ rest) = .ok (s, rest) := by
+  unfold writeStringPooled at hw
+  obtain ⟨t, rfl⟩ := hp
+  cases hi : indexOf? pool s with
+  | some i =>
+    rw [hi] at hw
+    simp only at hw
+    cases hc : writeCount (i : Int) with
+    | error e => rw [hc] at hw; cases hw
+    | ok c =>
+      rw [hc] at hw
+      simp only [bind, Except.bind] at hw
+      cases hw
+      obtain ⟨h0, h1, rfl⟩ := writeCount_eq_ok _ _ hc
+      unfold readString
+      rw [readCount_varint (i : Int) ⟨h0, h1⟩ rest]
+      simp only [bind, Except.bind, Int.toNat_natCast]
+      have hg := indexOf_get pool s i hi
+      have hlt : i < pool.length := by
+        rcases Nat.lt_or_ge i pool.length with h | h
+        · exact h
+        · rw [List.getElem?_eq_none h] at hg; cases hg
+      rw [List.getElem?_append_left hlt, hg]
+  | none =>
+    rw [hi] at hw
+    simp only at hw
+    cases hc : writeCount (pool.length : Int) with
+    | error e => rw [hc] at hw; cases hw
+    | ok c =>
+      rw [hc] at hw
+      simp only [bind, Except.bind] at hw
+      cases hw
+      obtain ⟨h0, h1, rfl⟩ := writeCount_eq_ok _ _ hc
+      unfold readString
+      rw [readCount_varint (pool.length : Int) ⟨h0, h1⟩ rest]
+      simp only [bind, Except.bind, Int.toNat_natCast]
+      have : (pool ++ [s] ++ t)[pool.length]? = some s := by
+        rw [List.append_assoc, List.getElem?_append_right (Nat.le_refl _)]
+        simp
+      rw [this]
+
 end Pyoda.C14
